@@ -153,6 +153,11 @@ pub open spec fn head_ok(p: &PoolImpl, head: Seq<Cert>) -> bool {
     if p.hi() > 0 { bundle_proves_final(&p.slot_states@[p.finality_tracker.highest_finalized_slot], head) }
     else { head.len() == 0 || bundle_proves_final(&p.slot_states@[p.finality_tracker.highest_finalized_slot], head) }
 }
+// [C18] the votes of the bundle: exactly the node's own stored votes for slots after the finalized one
+pub open spec fn votes_ok(p: &PoolImpl, votes: Seq<Vote>) -> bool {
+    &&& forall|i: int| 0 <= i < votes.len() ==> own_stored_from(p.slot_states@, p.hi() + 1, p.epoch_info.own_id.0 as int, #[trigger] votes[i])
+    &&& forall|v: Vote| #[trigger] own_stored_from(p.slot_states@, p.hi() + 1, p.epoch_info.own_id.0 as int, v) ==> votes.contains(v)
+}
 // the event handed to the voting component for re-broadcast
 pub uninterp spec fn was_sent(e: PoolEvent) -> bool;
 pub uninterp spec fn was_sent_standstill(next: Slot, certs: Seq<Cert>, votes: Seq<Vote>) -> bool;
@@ -180,6 +185,26 @@ impl PoolImpl {
     pub open spec fn certified(&self, b: BlockId) -> bool {
         self.slot_states@.contains_key(b.0) && self.slot_states@[b.0].nf_or_stronger(b.1)
     }
+}
+
+// ---------------------------------------------------------------- C18: own votes of later slots
+pub open spec fn nf_value_of(m: Map<BlockHash, NotarFallbackVote>, x: NotarFallbackVote) -> bool {
+    exists|h: BlockHash| m.contains_key(h) && #[trigger] m[h] == x
+}
+impl SlotState {
+    // v is one of the votes validator `own` cast in this slot, as stored
+    pub open spec fn stores_own_vote(&self, own: int, v: Vote) -> bool {
+        match v {
+            Vote::Final(x) => self.votes.finalize@[own] == Some(x),
+            Vote::Notar(x) => self.votes.notar@[own] == Some(x),
+            Vote::NotarFallback(x) => nf_value_of(self.votes.notar_fallback@[own]@, x),
+            Vote::Skip(x) => self.votes.skip@[own] == Some(x),
+            Vote::SkipFallback(x) => self.votes.skip_fallback@[own] == Some(x),
+        }
+    }
+}
+pub open spec fn own_stored_from(m: Map<Slot, SlotState>, from: int, own: int, v: Vote) -> bool {
+    exists|s: Slot| s.0 >= from && m.contains_key(s) && #[trigger] m[s].stores_own_vote(own, v)
 }
 
 pub mod code {
@@ -440,9 +465,135 @@ after `certs.push(Cert::Skip(cert));`
         }
 @*/
 
+    // R4: `map.values()` of one validator's notar-fallback votes, in key order (TRUSTED): exactly the map's values
     #[verifier::external_body]
-    pub fn get_own_votes(&self, slots: std::ops::RangeFrom<Slot>) -> (r: Vec<Vote>)
+    pub fn verif_nf_values<'a>(m: &'a BTreeMap<BlockHash, NotarFallbackVote>) -> (r: Vec<&'a NotarFallbackVote>)
+        ensures
+            forall|i: int| 0 <= i < r@.len() ==> nf_value_of(m@, *#[trigger] r@[i]),
+            forall|x: NotarFallbackVote| #[trigger] nf_value_of(m@, x) ==> exists|i: int| 0 <= i < r@.len() && *#[trigger] r@[i] == x,
     { unimplemented!() }
+
+/*@ extract src/consensus/pool.rs :: impl PoolImpl/fn get_own_votes
+props C18 C10
+ret r
+sig `slots: impl RangeBounds<Slot>` => `slots: std::ops::RangeFrom<Slot>`
+rewrite[R4] `for (_, slot_state) in self.slot_states.range(slots) {` => `let verif_states = Self::verif_range_from(&self.slot_states, &slots); let mut verif_i: usize = 0; while verif_i < verif_states.len() { let slot_state = verif_states[verif_i]; verif_i += 1;`
+rewrite[R4] `for vote in slot_state.votes.notar_fallback[own_id.as_usize()].values() {` => `let verif_nfv = Self::verif_nf_values(&slot_state.votes.notar_fallback[own_id.as_usize()]); let mut verif_j: usize = 0; while verif_j < verif_nfv.len() { let vote = verif_nfv[verif_j]; verif_j += 1;`
+requires
+        self.wf(),
+        // type invariant of ValidatorEpochInfo (its constructor asserts it): the own index is a validator of the epoch
+        (self.epoch_info.own_id.0 as int) < self.epoch_info.epoch.validators@.len(),
+ensures
+        // [C18.own_votes_of_later_slots_and_only_those]
+        forall|i: int| 0 <= i < r@.len() ==> own_stored_from(self.slot_states@, slots.start.0 as int, self.epoch_info.own_id.0 as int, #[trigger] r@[i]),
+        forall|v: Vote| #[trigger] own_stored_from(self.slot_states@, slots.start.0 as int, self.epoch_info.own_id.0 as int, v) ==> r@.contains(v),
+before `let verif_states = Self::verif_range_from(&self.slot_states, &slots);`
+        proof { broadcast use axiom_range_keys; }
+        let ghost from = slots.start.0 as int;
+        let ghost own = self.epoch_info.own_id.0 as int;
+        let ghost keys = spec_range_keys(self.slot_states@, from);
+loop 0
+        invariant
+            self.wf() && own == self.epoch_info.own_id.0 as int && own_id == self.epoch_info.own_id && own < self.epoch_info.epoch.validators@.len(),
+            verif_i <= verif_states@.len(),
+            verif_states@.len() == keys.len(),
+            keys == spec_range_keys(self.slot_states@, from),
+            forall|i: int| 0 <= i < verif_states@.len() ==> *#[trigger] verif_states@[i] == self.slot_states@[keys[i]],
+            forall|i: int| 0 <= i < keys.len() ==> self.slot_states@.contains_key(#[trigger] keys[i]) && keys[i].0 >= from,
+            forall|i: int| 0 <= i < votes@.len() ==> own_stored_from(self.slot_states@, from, own, #[trigger] votes@[i]),
+            forall|j: int, v: Vote| 0 <= j < verif_i && #[trigger] self.slot_states@[keys[j]].stores_own_vote(own, v) ==> votes@.contains(v),
+        decreases verif_states@.len() - verif_i,
+loop 1
+        invariant
+            self.wf() && own == self.epoch_info.own_id.0 as int && own_id == self.epoch_info.own_id && own < self.epoch_info.epoch.validators@.len(),
+            0 < verif_i <= verif_states@.len(),
+            verif_states@.len() == keys.len(),
+            *slot_state == self.slot_states@[keys[verif_i - 1]],
+            self.slot_states@.contains_key(keys[verif_i - 1]) && keys[verif_i - 1].0 >= from,
+            slot_state.votes.shape(slot_state.nv()) && slot_state.nv() == self.epoch_info.epoch.validators@.len(),
+            verif_j <= verif_nfv@.len(),
+            forall|i: int| 0 <= i < verif_nfv@.len() ==> nf_value_of(slot_state.votes.notar_fallback@[own]@, *#[trigger] verif_nfv@[i]),
+            forall|x: NotarFallbackVote| #[trigger] nf_value_of(slot_state.votes.notar_fallback@[own]@, x) ==> exists|i: int| 0 <= i < verif_nfv@.len() && *#[trigger] verif_nfv@[i] == x,
+            forall|i: int| 0 <= i < votes@.len() ==> own_stored_from(self.slot_states@, from, own, #[trigger] votes@[i]),
+            forall|j: int, v: Vote| 0 <= j < verif_i - 1 && #[trigger] self.slot_states@[keys[j]].stores_own_vote(own, v) ==> votes@.contains(v),
+            slot_state.votes.finalize@[own] is Some ==> votes@.contains(Vote::Final(slot_state.votes.finalize@[own]->0)),
+            slot_state.votes.notar@[own] is Some ==> votes@.contains(Vote::Notar(slot_state.votes.notar@[own]->0)),
+            forall|k: int| 0 <= k < verif_j ==> votes@.contains(Vote::NotarFallback(*#[trigger] verif_nfv@[k])),
+        decreases verif_nfv@.len() - verif_j,
+before `votes.push(Vote::Final(vote.clone()));`
+        let ghost prev = votes@;
+after `votes.push(Vote::Final(vote.clone()));`
+        proof {
+            assert(votes@.drop_last() =~= prev);
+            lemma_push_contains(votes@);
+            assert forall|y: Vote| prev.contains(y) implies #[trigger] votes@.contains(y) by {}
+            assert(own_stored_from(self.slot_states@, from, own, votes@.last())) by {
+                assert(self.slot_states@[keys[verif_i - 1]].stores_own_vote(own, votes@.last()));
+            }
+        }
+before `votes.push(Vote::Notar(vote.clone()));`
+        let ghost prev = votes@;
+after `votes.push(Vote::Notar(vote.clone()));`
+        proof {
+            assert(votes@.drop_last() =~= prev);
+            lemma_push_contains(votes@);
+            assert forall|y: Vote| prev.contains(y) implies #[trigger] votes@.contains(y) by {}
+            assert(own_stored_from(self.slot_states@, from, own, votes@.last())) by {
+                assert(self.slot_states@[keys[verif_i - 1]].stores_own_vote(own, votes@.last()));
+            }
+        }
+before `votes.push(Vote::NotarFallback(vote.clone()));`
+        let ghost prev = votes@;
+after `votes.push(Vote::NotarFallback(vote.clone()));`
+        proof {
+            assert(votes@.drop_last() =~= prev);
+            lemma_push_contains(votes@);
+            assert forall|y: Vote| prev.contains(y) implies #[trigger] votes@.contains(y) by {}
+            assert(own_stored_from(self.slot_states@, from, own, votes@.last())) by {
+                assert(self.slot_states@[keys[verif_i - 1]].stores_own_vote(own, votes@.last()));
+            }
+        }
+before `votes.push(Vote::Skip(vote.clone()));`
+        let ghost prev = votes@;
+after `votes.push(Vote::Skip(vote.clone()));`
+        proof {
+            assert(votes@.drop_last() =~= prev);
+            lemma_push_contains(votes@);
+            assert forall|y: Vote| prev.contains(y) implies #[trigger] votes@.contains(y) by {}
+            assert(own_stored_from(self.slot_states@, from, own, votes@.last())) by {
+                assert(self.slot_states@[keys[verif_i - 1]].stores_own_vote(own, votes@.last()));
+            }
+        }
+before `votes.push(Vote::SkipFallback(vote.clone()));`
+        let ghost prev = votes@;
+after `votes.push(Vote::SkipFallback(vote.clone()));`
+        proof {
+            assert(votes@.drop_last() =~= prev);
+            lemma_push_contains(votes@);
+            assert forall|y: Vote| prev.contains(y) implies #[trigger] votes@.contains(y) by {}
+            assert(own_stored_from(self.slot_states@, from, own, votes@.last())) by {
+                assert(self.slot_states@[keys[verif_i - 1]].stores_own_vote(own, votes@.last()));
+            }
+        }
+before `if let Some(vote) = &slot_state.votes.finalize[own_id.as_usize()] {`
+        proof {
+            assert(self.slot_states@[keys[verif_i - 1]].wf());
+            assert(slot_state.votes.shape(slot_state.nv()));
+            assert(slot_state.epoch_info == self.epoch_info);
+        }
+blockend `if let Some(vote) = &slot_state.votes.finalize[own_id.as_usize()] {`
+        proof {
+            assert forall|v: Vote| #[trigger] self.slot_states@[keys[verif_i - 1]].stores_own_vote(own, v) implies votes@.contains(v) by {
+                match v {
+                    Vote::NotarFallback(x) => {
+                        let k = choose|k: int| 0 <= k < verif_nfv@.len() && *#[trigger] verif_nfv@[k] == x;
+                        assert(votes@.contains(Vote::NotarFallback(*verif_nfv@[k])));
+                    }
+                    _ => {}
+                }
+            }
+        }
+@*/
 }
 
 impl ParentReadyTracker {
@@ -586,6 +737,7 @@ elide-async
 rewrite[R8] `certs.extend(self.get_certs(slot.next()..));` => `let verif_from = slot.next(); let verif_more = self.get_certs(verif_from..); let ghost more_view = verif_more@; verif_extend_certs(&mut certs, verif_more);`
 requires
         self.wf(),
+        (self.epoch_info.own_id.0 as int) < self.epoch_info.epoch.validators@.len(),
         // pool invariant (maintained by add_valid_cert, ASSUMED here): the highest finalized slot is
         // backed by stored certificates - unless nothing beyond genesis has been finalized yet
         self.hi() > 0 ==> self.slot_states@.contains_key(self.finality_tracker.highest_finalized_slot)
@@ -593,7 +745,8 @@ requires
 ensures
         // [C18.bundle_is_final_certs_then_all_later_certs_and_own_votes]
         exists|head: Seq<Cert>, tail: Seq<Cert>, votes: Seq<Vote>|
-            #[trigger] was_sent_standstill(Slot((self.hi() + 1) as u64), head + tail, votes) && head_ok(self, head) && tail_ok(self, tail),
+            #[trigger] was_sent_standstill(Slot((self.hi() + 1) as u64), head + tail, votes) && head_ok(self, head) && tail_ok(self, tail)
+            && votes_ok(self, votes),
 after `let mut certs = self.get_final_certs(slot);`
         let ghost fc = certs@;
 before `let event = PoolEvent::Standstill(slot.next(), certs, votes);`
